@@ -298,7 +298,7 @@ epochLoop:
 				if err != nil {
 					return nil, fmt.Errorf("error while getting signature at index=%v: %w", txLoc, err)
 				}
-				if tx.Slot < int(until) {
+				if uint64(tx.Slot) < until {
 					break epochLoop
 				}
 				if uint64(tx.Slot) >= before {
